@@ -37,17 +37,17 @@ type Ex struct {
 	a  []*Ex
 }
 
-func X() *Ex                { return &Ex{op: "x"} }
-func C(k float64) *Ex       { return &Ex{op: "c", k: k} }
-func Add(a, b *Ex) *Ex      { return &Ex{op: "+", a: []*Ex{a, b}} }
-func Sub(a, b *Ex) *Ex      { return &Ex{op: "-", a: []*Ex{a, b}} }
-func Mul(a, b *Ex) *Ex      { return &Ex{op: "*", a: []*Ex{a, b}} }
-func Div(a, b *Ex) *Ex      { return &Ex{op: "/", a: []*Ex{a, b}} }
-func Neg(a *Ex) *Ex         { return &Ex{op: "neg", a: []*Ex{a}} }
-func Abs(a *Ex) *Ex         { return &Ex{op: "abs", a: []*Ex{a}} }
-func Max(a, b *Ex) *Ex      { return &Ex{op: "max", a: []*Ex{a, b}} }
-func Min(a, b *Ex) *Ex      { return &Ex{op: "min", a: []*Ex{a, b}} }
-func Ite(a, b, t, e *Ex) *Ex { return &Ex{op: "ite", a: []*Ex{a, b, t, e}} }
+func exX() *Ex                 { return &Ex{op: "x"} }
+func exC(k float64) *Ex        { return &Ex{op: "c", k: k} }
+func exAdd(a, b *Ex) *Ex       { return &Ex{op: "+", a: []*Ex{a, b}} }
+func exSub(a, b *Ex) *Ex       { return &Ex{op: "-", a: []*Ex{a, b}} }
+func exMul(a, b *Ex) *Ex       { return &Ex{op: "*", a: []*Ex{a, b}} }
+func exDiv(a, b *Ex) *Ex       { return &Ex{op: "/", a: []*Ex{a, b}} }
+func exNeg(a *Ex) *Ex          { return &Ex{op: "neg", a: []*Ex{a}} }
+func exAbs(a *Ex) *Ex          { return &Ex{op: "abs", a: []*Ex{a}} }
+func exMax(a, b *Ex) *Ex       { return &Ex{op: "max", a: []*Ex{a, b}} }
+func exMin(a, b *Ex) *Ex       { return &Ex{op: "min", a: []*Ex{a, b}} }
+func exIte(a, b, t, e *Ex) *Ex { return &Ex{op: "ite", a: []*Ex{a, b, t, e}} }
 
 func (e *Ex) Eval(x float64) float64 {
 	switch e.op {
@@ -112,9 +112,9 @@ func readEx(t *tokenReader) *Ex {
 	op := t.next()
 	switch op {
 	case "x":
-		return X()
+		return exX()
 	case "c":
-		return C(t.float())
+		return exC(t.float())
 	case "+", "-", "*", "/", "max", "min":
 		a := readEx(t)
 		b := readEx(t)
@@ -126,7 +126,7 @@ func readEx(t *tokenReader) *Ex {
 		b := readEx(t)
 		c := readEx(t)
 		d := readEx(t)
-		return Ite(a, b, c, d)
+		return exIte(a, b, c, d)
 	}
 	panic("bad expression token " + op)
 }
@@ -135,27 +135,27 @@ func readEx(t *tokenReader) *Ex {
 func (e *Ex) Deriv() *Ex {
 	switch e.op {
 	case "x":
-		return C(1)
+		return exC(1)
 	case "c":
-		return C(0)
+		return exC(0)
 	case "+":
-		return Add(e.a[0].Deriv(), e.a[1].Deriv())
+		return exAdd(e.a[0].Deriv(), e.a[1].Deriv())
 	case "-":
-		return Sub(e.a[0].Deriv(), e.a[1].Deriv())
+		return exSub(e.a[0].Deriv(), e.a[1].Deriv())
 	case "*":
-		return Add(Mul(e.a[0].Deriv(), e.a[1]), Mul(e.a[0], e.a[1].Deriv()))
+		return exAdd(exMul(e.a[0].Deriv(), e.a[1]), exMul(e.a[0], e.a[1].Deriv()))
 	case "/":
-		return Div(Sub(Mul(e.a[0].Deriv(), e.a[1]), Mul(e.a[0], e.a[1].Deriv())), Mul(e.a[1], e.a[1]))
+		return exDiv(exSub(exMul(e.a[0].Deriv(), e.a[1]), exMul(e.a[0], e.a[1].Deriv())), exMul(e.a[1], e.a[1]))
 	case "neg":
-		return Neg(e.a[0].Deriv())
+		return exNeg(e.a[0].Deriv())
 	case "abs":
-		return Ite(e.a[0], C(0), Neg(e.a[0].Deriv()), e.a[0].Deriv())
+		return exIte(e.a[0], exC(0), exNeg(e.a[0].Deriv()), e.a[0].Deriv())
 	case "max":
-		return Ite(e.a[1], e.a[0], e.a[0].Deriv(), e.a[1].Deriv())
+		return exIte(e.a[1], e.a[0], e.a[0].Deriv(), e.a[1].Deriv())
 	case "min":
-		return Ite(e.a[1], e.a[0], e.a[1].Deriv(), e.a[0].Deriv())
+		return exIte(e.a[1], e.a[0], e.a[1].Deriv(), e.a[0].Deriv())
 	case "ite":
-		return Ite(e.a[0], e.a[1], e.a[2].Deriv(), e.a[3].Deriv())
+		return exIte(e.a[0], e.a[1], e.a[2].Deriv(), e.a[3].Deriv())
 	}
 	panic("bad expression op " + e.op)
 }
@@ -164,11 +164,11 @@ func (e *Ex) Deriv() *Ex {
 // FR
 
 type frCase struct {
-	mono                             int
-	L                                float64
-	f, d                             *Ex
+	mono                            int
+	L                               float64
+	f, d                            *Ex
 	initialX, minX, maxX, tol, conv float64
-	maxIter                          int
+	maxIter                         int
 }
 
 func (k *frCase) Body() string {
@@ -357,16 +357,16 @@ func drawFn(r *Rng) *frFn {
 	if r.Chance(0.15) {
 		root = r.LogUniform(1e-6, 1e4)
 	}
-	u := Sub(X(), C(root))
+	u := exSub(exX(), exC(root))
 	switch r.Intn(11) {
 	case 0: // linear a·(x−r)
 		a := niceCoef(r, 1e-4, 1e4)
-		return &frFn{f: Mul(C(a), u), mono: 1, kind: "linear", marks: []float64{root},
+		return &frFn{f: exMul(exC(a), u), mono: 1, kind: "linear", marks: []float64{root},
 			L: func(lo, hi float64) float64 { return a }}
 	case 1: // linear a·x + b
 		a := niceCoef(r, 1e-3, 1e3)
 		b := -a * root
-		return &frFn{f: Add(Mul(C(a), X()), C(b)), mono: 1, kind: "linear-ab", marks: []float64{root},
+		return &frFn{f: exAdd(exMul(exC(a), exX()), exC(b)), mono: 1, kind: "linear-ab", marks: []float64{root},
 			L: func(lo, hi float64) float64 { return a }}
 	case 2: // monotone cubic a·u³ + b·u
 		a := niceCoef(r, 1e-3, 10)
@@ -374,33 +374,33 @@ func drawFn(r *Rng) *frFn {
 		if r.Chance(0.7) {
 			b = niceCoef(r, 1e-3, 10)
 		}
-		return &frFn{f: Add(Mul(C(a), Mul(Mul(u, u), u)), Mul(C(b), u)), mono: 1, kind: "cubic", marks: []float64{root},
+		return &frFn{f: exAdd(exMul(exC(a), exMul(exMul(u, u), u)), exMul(exC(b), u)), mono: 1, kind: "cubic", marks: []float64{root},
 			L: func(lo, hi float64) float64 {
 				m := math.Max(math.Abs(lo-root), math.Abs(hi-root))
 				return (3*a*m*m + b) * (1 + 1e-9)
 			}}
 	case 3: // convex kinks: a·u + Σ cᵢ·max(0, x−kᵢ)
 		a := niceCoef(r, 1e-3, 10)
-		e := Mul(C(a), u)
+		e := exMul(exC(a), u)
 		L := a
 		marks := []float64{root}
 		for i, n := 0, r.Range(1, 3); i < n; i++ {
 			k := root + r.Uniform(-3, 3)
 			ci := niceCoef(r, 1e-2, 100)
-			e = Add(e, Mul(C(ci), Max(C(0), Sub(X(), C(k)))))
+			e = exAdd(e, exMul(exC(ci), exMax(exC(0), exSub(exX(), exC(k)))))
 			L += ci
 			marks = append(marks, k)
 		}
 		return &frFn{f: e, mono: 1, kind: "kinked-convex", marks: marks, L: func(lo, hi float64) float64 { return L * (1 + 1e-9) }}
 	case 4: // concave kinks: a·u + Σ cᵢ·min(0, x−kᵢ)
 		a := niceCoef(r, 1e-3, 10)
-		e := Mul(C(a), u)
+		e := exMul(exC(a), u)
 		L := a
 		marks := []float64{root}
 		for i, n := 0, r.Range(1, 3); i < n; i++ {
 			k := root + r.Uniform(-3, 3)
 			ci := niceCoef(r, 1e-2, 100)
-			e = Add(e, Mul(C(ci), Min(C(0), Sub(X(), C(k)))))
+			e = exAdd(e, exMul(exC(ci), exMin(exC(0), exSub(exX(), exC(k)))))
 			L += ci
 			marks = append(marks, k)
 		}
@@ -409,29 +409,29 @@ func drawFn(r *Rng) *frFn {
 		k0 := root - r.Uniform(0, 2)
 		k1 := root + r.Uniform(0, 2)
 		a, b := niceCoef(r, 1e-2, 100), niceCoef(r, 1e-2, 100)
-		return &frFn{f: Add(Mul(C(a), Max(C(0), Sub(X(), C(k1)))), Mul(C(b), Min(C(0), Sub(X(), C(k0))))), mono: 1, kind: "flat-zero-zone",
+		return &frFn{f: exAdd(exMul(exC(a), exMax(exC(0), exSub(exX(), exC(k1)))), exMul(exC(b), exMin(exC(0), exSub(exX(), exC(k0))))), mono: 1, kind: "flat-zero-zone",
 			marks: []float64{k0, k1, root}, L: func(lo, hi float64) float64 { return math.Max(a, b) * (1 + 1e-9) }}
 	case 6: // saturating: clamp(a·u, lo, hi) — flat tails
 		a := niceCoef(r, 1e-2, 100)
 		lo, hi := -niceCoef(r, 1e-3, 10), niceCoef(r, 1e-3, 10)
-		return &frFn{f: Max(C(lo), Min(C(hi), Mul(C(a), u))), mono: 1, kind: "clamped", marks: []float64{root, root + lo/a, root + hi/a},
+		return &frFn{f: exMax(exC(lo), exMin(exC(hi), exMul(exC(a), u))), mono: 1, kind: "clamped", marks: []float64{root, root + lo/a, root + hi/a},
 			L: func(l, h float64) float64 { return a }}
 	case 7: // identically zero / constant (flat): only brackets when the constant is 0
 		k := 0.0
 		if r.Chance(0.3) {
 			k = r.Uniform(-1, 1)
 		}
-		return &frFn{f: Add(Mul(C(0), X()), C(k)), mono: 1, kind: "constant", marks: []float64{root}, L: func(l, h float64) float64 { return 1e-300 }}
+		return &frFn{f: exAdd(exMul(exC(0), exX()), exC(k)), mono: 1, kind: "constant", marks: []float64{root}, L: func(l, h float64) float64 { return 1e-300 }}
 	case 8: // non-monotone cubic with three roots (x−r1)(x−r2)(x−r3), positive leading coefficient
 		d1, d2 := r.Uniform(0.2, 2), r.Uniform(0.2, 2)
 		a := niceCoef(r, 1e-2, 10)
-		return &frFn{f: Mul(C(a), Mul(Mul(Sub(X(), C(root-d1)), u), Sub(X(), C(root+d2)))), mono: 0, kind: "three-roots",
+		return &frFn{f: exMul(exC(a), exMul(exMul(exSub(exX(), exC(root-d1)), u), exSub(exX(), exC(root+d2)))), mono: 0, kind: "three-roots",
 			marks: []float64{root - d1, root, root + d2}}
 	case 9: // non-monotone: a·u + c·|x−k| with c > a (V shape tilted), sign change on one side
 		a := niceCoef(r, 1e-2, 10)
 		cc := a * r.Uniform(1.5, 5)
 		k := root + r.Uniform(-2, 2)
-		return &frFn{f: Sub(Add(Mul(C(a), u), Mul(C(cc), Abs(Sub(X(), C(k))))), C(cc*r.Uniform(0.1, 2))), mono: 0, kind: "tilted-V",
+		return &frFn{f: exSub(exAdd(exMul(exC(a), u), exMul(exC(cc), exAbs(exSub(exX(), exC(k))))), exC(cc*r.Uniform(0.1, 2))), mono: 0, kind: "tilted-V",
 			marks: []float64{root, k}}
 	default: // non-monotone quartic bump that is zero at both marks: (x−r)(x−r−d)·(1 + b·u²) — f(min)=f(max)=0 possible
 		d := r.Uniform(0.5, 3)
@@ -439,7 +439,7 @@ func drawFn(r *Rng) *frFn {
 		if r.Bool() {
 			s = -1
 		}
-		return &frFn{f: Mul(Mul(C(s), Mul(u, Sub(X(), C(root+d)))), Add(C(1), Mul(C(0.25), Mul(u, u)))), mono: 0, kind: "zero-at-both-ends",
+		return &frFn{f: exMul(exMul(exC(s), exMul(u, exSub(exX(), exC(root+d)))), exAdd(exC(1), exMul(exC(0.25), exMul(u, u)))), mono: 0, kind: "zero-at-both-ends",
 			marks: []float64{root, root + d}}
 	}
 }
@@ -547,9 +547,9 @@ func genFR(c *Ctx) {
 		case 3, 4, 5:
 			k.d = fnc.f.Deriv()
 		case 6:
-			k.d = []*Ex{C(0), C(1), C(-1), Sub(X(), C(4)), Div(C(0), C(0)), Neg(fnc.f.Deriv()), Mul(C(1e-9), X())}[r.Intn(7)]
+			k.d = []*Ex{exC(0), exC(1), exC(-1), exSub(exX(), exC(4)), exDiv(exC(0), exC(0)), exNeg(fnc.f.Deriv()), exMul(exC(1e-9), exX())}[r.Intn(7)]
 		default:
-			k.d = C(niceCoef(r, 1e-3, 1e3))
+			k.d = exC(niceCoef(r, 1e-3, 1e3))
 		}
 		body := k.Body()
 		fl, fh := k.f.Eval(k.minX), k.f.Eval(k.maxX)
@@ -572,29 +572,29 @@ func genFR(c *Ctx) {
 
 // hand-written cases: the observations of DESIGN §6 C18 and the boundaries of every guard
 func fixedFRCases() []*frCase {
-	id := X()
-	lin := func(a, b float64) *Ex { return Add(Mul(C(a), X()), C(b)) }
+	id := exX()
+	lin := func(a, b float64) *Ex { return exAdd(exMul(exC(a), exX()), exC(b)) }
 	out := []*frCase{
 		// maxIterations = 0 returns the initial guess: f(x)=x−0.1 on [0,1] from 0.9 → delta 0.8, better end 0.1
-		{mono: 1, L: 1, f: Sub(id, C(0.1)), initialX: 0.9, minX: 0, maxX: 1, tol: 1e-6, conv: 0, maxIter: 0},
-		{mono: 1, L: 1, f: Sub(id, C(0.1)), initialX: 0.9, minX: 0, maxX: 1, tol: 1e-6, conv: 0, maxIter: 1},
+		{mono: 1, L: 1, f: exSub(id, exC(0.1)), initialX: 0.9, minX: 0, maxX: 1, tol: 1e-6, conv: 0, maxIter: 0},
+		{mono: 1, L: 1, f: exSub(id, exC(0.1)), initialX: 0.9, minX: 0, maxX: 1, tol: 1e-6, conv: 0, maxIter: 1},
 		// accepted within tolerance although worse than the better end: f(x)=x on [−1e-6, 9e-4], tol 1e-3
 		{mono: 1, L: 1, f: id, initialX: -1e-6, minX: -1e-6, maxX: 9e-4, tol: 1e-3, conv: 0, maxIter: 5},
 		// f(min)=f(max)=0 with non-zero interior and unreachable tolerance: secant point 0/0
-		{mono: 0, L: 0, f: Mul(id, Sub(id, C(1))), initialX: 0.25, minX: 0, maxX: 1, tol: 1e-12, conv: 0, maxIter: 3},
+		{mono: 0, L: 0, f: exMul(id, exSub(id, exC(1))), initialX: 0.25, minX: 0, maxX: 1, tol: 1e-12, conv: 0, maxIter: 3},
 		// the repository's own test: 0.5x²+4x−3 with the (wrong) derivative x−4
-		{mono: 0, L: 0, f: Add(Add(Mul(C(0.5), Mul(id, id)), Mul(C(4), id)), C(-3)), d: Sub(id, C(4)), initialX: 0.5, minX: 0, maxX: 2, tol: 1e-6, conv: 1e-15, maxIter: 10},
+		{mono: 0, L: 0, f: exAdd(exAdd(exMul(exC(0.5), exMul(id, id)), exMul(exC(4), id)), exC(-3)), d: exSub(id, exC(4)), initialX: 0.5, minX: 0, maxX: 2, tol: 1e-6, conv: 1e-15, maxIter: 10},
 		// degenerate interval min == max at the root
 		{mono: 1, L: 2, f: lin(2, -4), initialX: 2, minX: 2, maxX: 2, tol: 1e-9, conv: 0, maxIter: 4},
 		// identically zero
 		{mono: 1, L: 1e-300, f: lin(0, 0), initialX: 1, minX: -3, maxX: 7, tol: 1e-9, conv: 0, maxIter: 4},
 		// unbracketed: panic
-		{mono: 1, L: 1, f: Add(id, C(10)), initialX: 0.5, minX: 0, maxX: 1, tol: 1e-6, conv: 0, maxIter: 4},
-		{mono: 1, L: 1, f: Sub(id, C(10)), initialX: 0.5, minX: 0, maxX: 1, tol: 1e-6, conv: 0, maxIter: 4},
+		{mono: 1, L: 1, f: exAdd(id, exC(10)), initialX: 0.5, minX: 0, maxX: 1, tol: 1e-6, conv: 0, maxIter: 4},
+		{mono: 1, L: 1, f: exSub(id, exC(10)), initialX: 0.5, minX: 0, maxX: 1, tol: 1e-6, conv: 0, maxIter: 4},
 		// convergence limit so large that the first iteration returns
 		{mono: 1, L: 3, f: lin(3, -1), initialX: 0, minX: 0, maxX: 1, tol: 1e-12, conv: 1e9, maxIter: 20},
 		// tolerance 0 on a function with a flat zero zone and f(min)=0: secant becomes 0/0 for a monotone function
-		{mono: 1, L: 1, f: Max(C(0), Sub(id, C(1))), initialX: 0, minX: 0, maxX: 3, tol: 0, conv: 0, maxIter: 4},
+		{mono: 1, L: 1, f: exMax(exC(0), exSub(id, exC(1))), initialX: 0, minX: 0, maxX: 3, tol: 0, conv: 0, maxIter: 4},
 	}
 	return out
 }
